@@ -12,7 +12,7 @@ RULE = ("every case is executed on hash_based / kdtree and on nearest_neighbor; 
         "reference {(i,j,lev)<=k} and the engines' sets with each other (differential); non-trivial = expected set non-empty")
 ASSUMPTIONS = ["hash_based is exponential in max_edits: k=2 up to U(.,4)/(thorough U(.,5) one alphabet), k=3 only on U(.,2)",
                "kdtree radius-boundary family uses homopolymer blocks so that the composition vectors differ by exactly sqrt(2)*k"]
-REQUIRED_CLASSES = {"all": ["bin-straddling-alphabet", "radius-boundary-pair", "duplicate-at-distance-0", "has-empty-string", "size-boundary-family", "equal-length-pair-needs-indels", "long-anagram-pair"]}
+REQUIRED_CLASSES = {"all": ["bin-straddling-alphabet", "radius-boundary-pair", "duplicate-at-distance-0", "has-empty-string", "size-boundary-family", "equal-length-pair-needs-indels", "long-anagram-pair", "all-sequences-of-one-length", "shared-prefix-and-suffix"]}
 MIN_OUTCOMES = 10
 
 ALPHAS = ("ACD", "DEF", "WYA")   # straddle kdtree composition bins at compression 1, 2, 3 (aminoacids = ACDEFGHIKLMNPQRSTVWY)
@@ -46,6 +46,12 @@ def spaces(tier):
             yield ("sizefam", "kdtree", N, 1)
         for n in (126, 127, 128, 129, 200):
             yield ("anagram", n)
+        for alpha, L in (("ACD", 4), ("AC", 6), ("ACDE", 3)):
+            for k in (1, 2, 3):
+                yield ("eqlen-uni", "kdtree", alpha, L, k)
+        yield ("eqlen-uni", "hash_based", "ACD", 4, 1)
+        yield ("eqlen-uni", "hash_based", "ACD", 3, 2)
+        yield ("flanks",)
         yield ("sizefam", "kdtree", 1025, 2)
         for N in (257, 1025):
             yield ("sizefam", "hash_based", N, 1)
@@ -130,6 +136,22 @@ def check_case(case, acc):
         seqs, pos = E.size_family(N)
         acc.cls("size-boundary-family")
         compare(acc, case, eng, seqs, k, neighbors_within(seqs, k), False)
+    elif kind == "eqlen-uni":
+        _, eng, alpha, L, k = case
+        seqs = ["".join(t) for t in itertools.product(alpha, repeat=L)]
+        acc.cls("all-sequences-of-one-length")
+        compare(acc, case, eng, seqs, k, neighbors_within(seqs, k), False)
+    elif kind == "flanks":
+        # CDR3-like collections: every member shares a prefix and a suffix (C...F), members differ by indels in a repeated stretch
+        fam = ["CASSF", "CASF", "CASSSF", "CAF", "CASSSSF", "CSF", "CASAF"]
+        acc.cls("shared-prefix-and-suffix")
+        for n in (2, 3, 4):
+            for sub in itertools.combinations(fam, n):
+                for k in (1, 2, 3):
+                    exp = neighbors_within(list(sub), k)
+                    for eng in ("kdtree",) + (("hash_based",) if k <= 2 else ()):
+                        if compare(acc, ("one", eng, tuple(sub), k), eng, sub, k, exp, True) is None:
+                            pass
     elif kind == "anagram":
         # block swaps: identical composition (always KD-tree candidates of each other) at a large, exactly known distance
         n = case[1]
